@@ -4,6 +4,7 @@ import (
 	"fmt"
 	"go/ast"
 	"os"
+	"os/exec"
 	"path/filepath"
 	"regexp"
 	"regexp/syntax"
@@ -157,10 +158,49 @@ func pinnedDir() string {
 	return filepath.Join(root, "harness", "pinned")
 }
 
+// xmodFile locates a source file of golang.org/x/mod in the version /repo's go.mod requires (the library
+// the proxy — and this harness, through its `replace … => /repo` — is built against): `go list -m` run in
+// /repo, else GOMODCACHE + the version read from /repo/go.mod.  When neither works the (non-existent) path
+// returned makes TranslateModule write the pinned copy and report the anchor lost.
+func xmodFile(repo string, rel ...string) string {
+	env := append(os.Environ(), "GOFLAGS=-mod=mod", "GOPROXY=off", "GOSUMDB=off", "GOTOOLCHAIN=local")
+	cmd := exec.Command("go", "list", "-m", "-f", "{{.Dir}}", "golang.org/x/mod")
+	cmd.Dir, cmd.Env = repo, env
+	if out, err := cmd.Output(); err == nil {
+		if dir := strings.TrimSpace(string(out)); dir != "" {
+			if _, err := os.Stat(dir); err == nil {
+				return filepath.Join(append([]string{dir}, rel...)...)
+			}
+		}
+	}
+	ver := ""
+	if data, err := os.ReadFile(filepath.Join(repo, "go.mod")); err == nil {
+		if m := regexp.MustCompile(`(?m)^\s*(?:require\s+)?golang\.org/x/mod\s+(v\S+)`).FindSubmatch(data); m != nil {
+			ver = string(m[1])
+		}
+	}
+	cache := ""
+	if out, err := exec.Command("go", "env", "GOMODCACHE").Output(); err == nil {
+		cache = strings.TrimSpace(string(out))
+	}
+	if ver == "" || cache == "" {
+		return filepath.Join(append([]string{string(filepath.Separator) + "golang.org-x-mod-not-found"}, rel...)...)
+	}
+	return filepath.Join(append([]string{cache, "golang.org", "x", "mod@" + ver}, rel...)...)
+}
+
 func genProxy(g *fact.Gen) {
 	// allHex itself, translated statement by statement (harness/internal/go2lean)
 	g.TranslateModule("ProxyGo", "goproxytest/allhex.go", []string{"allHex"}, "proxy",
 		[]string{"GIV.GoLib"}, "GIV.Go.Proxy", filepath.Join(pinnedDir(), "ProxyGo.lean"))
+	// golang.org/x/mod/semver (IsValid, Major, Build, Compare, Canonical and everything below them), translated
+	// from the LIBRARY SOURCE in the module cache, in the version /repo's go.mod requires; GIV.Lemmas.SemverGo
+	// proves the translation equal to the model's semverParse / semverIsValid / semverMajor / semverBuild /
+	// semverCompare for every string
+	g.TranslateModule("SemverGo", xmodFile(g.Repo, "semver", "semver.go"),
+		[]string{"isIdentChar", "isBadNum", "isNum", "parseInt", "parsePrerelease", "parseBuild", "parse", "IsValid",
+			"Canonical", "Major", "Build", "compareInt", "nextIdent", "comparePrerelease", "Compare"}, "semver",
+		[]string{"GIV.GoLib"}, "GIV.Go.Semver", filepath.Join(pinnedDir(), "SemverGo.lean"))
 	const rel = "goproxytest/proxy.go"
 	g.Emit("/-- Regular expressions over bytes (whole-string matching); `cls` = union of inclusive byte ranges. -/\ninductive Re where\n  | empty | eps\n  | cls (ranges : List (UInt8 × UInt8))\n  | cat (a b : Re) | alt (a b : Re) | star (a : Re)\n\n")
 
